@@ -104,4 +104,35 @@ def ctrLastProofHeight (f : Fixes) (s : Ctr) : Option Nat :=
   | some b => if f.lastProofHeight then newestHeight s else some b.height
   | none => if (specLastProof s.perm).isSome then (if f.lastProofHeight then newestHeight s else lastHeight s.perm) else none
 
+/-! ### the other reads of the Center: temps newest first, then the permanent store -/
+
+def stateOf (k : String) (b : Block) : Option (String × Nat) :=
+  (b.states.find? (fun e => e.1 = k)).map (fun e => (e.2, b.height))
+
+/-- `Center.State`: the temps newest first, then the permanent store -/
+def ctrState (s : Ctr) (k : String) : Option (String × Nat) :=
+  (s.temps.findSome? (stateOf k)).or (specState s.perm k)
+
+/-- `Center.BlockMap` -/
+def ctrBlockMap (s : Ctr) (h : Nat) : Option String :=
+  ((s.temps.find? (fun b => b.height = h)).map (·.mapID)).or (specBlockMap s.perm h)
+
+/-- `Center.LastBlockMap` -/
+def ctrLastBlockMap (s : Ctr) : Option String :=
+  match s.temps with
+  | b :: _ => some b.mapID
+  | [] => specLastBlockMap s.perm
+
+/-- `Center.LastSuffrageProof` -/
+def ctrLastProof (s : Ctr) : Option String :=
+  (s.temps.findSome? (fun b => b.suf.map (·.2))).or (specLastProof s.perm)
+
+/-- `Center.LastNetworkPolicy` -/
+def ctrPolicy (s : Ctr) : Option String :=
+  (s.temps.findSome? (·.policy)).or (specPolicy s.perm)
+
+/-- `Center.ExistsInStateOperation` / `ExistsKnownOperation` -/
+def ctrInState (s : Ctr) (op : String) : Bool := s.temps.any (fun b => b.inState.contains op) || specInState s.perm op
+def ctrKnown (s : Ctr) (op : String) : Bool := s.temps.any (fun b => b.known.contains op) || specKnown s.perm op
+
 end Mitum.Center
